@@ -89,6 +89,9 @@ def _configs(nt, around):
     # the parameter arguments are documented as Iterable[Tensor]: generators (module.parameters()) and tuples, bare feature tensor
     cfgs.append((ident, "all", "own", "const", None, "float64", "gen"))
     cfgs.append((ident[::-1], "deps", "own-rev", "const", 1, "float64", "tuple"))
+    # the same call twice on a retained graph: every requested .grad must receive the update twice
+    cfgs.append((ident, "all", "own", "const", None, "float64", "list", "twice"))
+    cfgs.append((ident[::-1], "all", "own", "const", 2, "float64", "list", "twice"))
     return cfgs
 
 
@@ -128,6 +131,7 @@ def run_case(case):
     for ci, cfg_ in enumerate(_configs(nt, around)):
         perm, smode, tmode, aggname, chunk, dtype = cfg_[:6]
         cont = cfg_[6] if len(cfg_) > 6 else "list"
+        twice = len(cfg_) > 7
         B = M.build_torch(desc, seed, dtype)
         vals = B["vals"]
         if not fwd_ok:
@@ -190,8 +194,14 @@ def run_case(case):
             rank.setdefault(id(x), sgn * j)
         try:
           with SetOrderSeam(lambda x: rank.get(id(x), 10 ** 6)):
-            mtl_backward(losses=losses, features=feats_arg, aggregator=agg, tasks_params=tparams, shared_params=shared,
-                         parallel_chunk_size=chunk)
+            if twice:
+                for _ in range(2):
+                    mtl_backward(losses=losses, features=feats_arg, aggregator=agg, tasks_params=tparams, shared_params=shared,
+                                 parallel_chunk_size=chunk, retain_graph=True)
+                agg.calls[:] = agg.calls[:1]
+            else:
+                mtl_backward(losses=losses, features=feats_arg, aggregator=agg, tasks_params=tparams, shared_params=shared,
+                             parallel_chunk_size=chunk)
         except Exception as e:
             viol.append(dict(sig=f"exception:{type(e).__name__}", cls=f"exception:{type(e).__name__}:{smode}:{tmode}",
                              msg=f"{where} | {e!r}"[:700]))
@@ -205,7 +215,7 @@ def run_case(case):
             if g is None:
                 delta[key] = None
             else:
-                delta[key] = g.detach().double().numpy() - (pre[key].double().numpy() if key in pre else 0.0)
+                delta[key] = (g.detach().double().numpy() - (pre[key].double().numpy() if key in pre else 0.0)) / (2.0 if twice else 1.0)
         # ---- task parameters
         usesU = [i for i in range(nt) if desc["heads"][i]["tpl"] == "H6"]
         bad = None
